@@ -28,7 +28,7 @@ SHF_W, SHF_A, SHF_X, SHF_TLS = 1, 2, 4, 0x400
 NOBITS = 8
 
 
-def structure(path, kind, page, relro=True):
+def structure(path, kind, page, relro=True, scripted=False):
     """Every clause of C04 on one output file.  Returns (problems, facts)."""
     bad = []
     try:
@@ -232,7 +232,9 @@ def structure(path, kind, page, relro=True):
                     inside.append(s["name"])
                 elif s["flags"] & SHF_W and (a // page == lo // page and a < lo or (b - 1) // page < hi // page and a >= hi):
                     bad.append(f"writable section {s['name']} [{a:#x},{b:#x}) shares a page that PT_GNU_RELRO [{lo:#x},{hi:#x}) makes read-only")
-            for nm in (".init_array", ".fini_array", ".preinit_array", ".data.rel.ro", ".dynamic", ".tdata"):
+            # (under a SECTIONS script which sections share the RELRO region is the script's business: without
+            #  DATA_SEGMENT_RELRO_END GNU ld protects nothing at all)
+            for nm in (() if scripted else (".init_array", ".fini_array", ".preinit_array", ".data.rel.ro", ".dynamic", ".tdata")):
                 s = sec(nm)
                 if s and s["size"] and nm not in inside:
                     bad.append(f"{nm} is not inside PT_GNU_RELRO")
@@ -481,7 +483,7 @@ def run(chk, replay=None):
     d = tempfile.mkdtemp(prefix="c04")
 
     def examine(path, kind, page, rep, located, relro=True):
-        bad, facts = structure(path, kind, page)
+        bad, facts = structure(path, kind, page, scripted="-T" in (rep.get("opts") or []))
         stats["accepted"] += 1
         stats["by_kind"][kind] = stats["by_kind"].get(kind, 0) + 1
         stats["sections"] += facts.get("sections", 0)
